@@ -287,6 +287,7 @@ def run_case(ctx, drv, case, rng, thorough=False, verbose=False):
         state["viol"] = True
         tags = dict(base_tags)
         tags.update(extra)
+        detail = dict(detail, case_index=ctx.evaluations)      # position of the failing case in the run (0 = first)
         ctx.violation(probe, tags, pub, detail)
         if verbose:
             print("  oracle:", probe, tags, detail)
@@ -455,6 +456,10 @@ def run_case(ctx, drv, case, rng, thorough=False, verbose=False):
                 bad.append(("levelToNumPointsWithBoundary", nwb))
             if [int(x) for x in grid.levelToNumPoints(lv_arg)] != N:
                 bad.append(("levelToNumPoints-after-WithBoundary", [int(x) for x in grid.levelToNumPoints(lv_arg)], N))
+            if fam in HIER:
+                got_p = [getattr(g1d, "p", None) for g1d in grid.grids]
+                if any(q != int(case["p"]) for q in got_p):
+                    bad.append(("order-p-not-forwarded-to-1D-grids", got_p, int(case["p"])))
             gb = [bool(x) for x in grid.get_boundaries()]
             want = [False if fams[d] == "GaussLegendre" else flags[d] for d in range(dim)]
             if gb != want:
@@ -980,7 +985,26 @@ def run(ctx):
                                 if fam != "GaussLegendre":
                                     c["btype"] = ["bool", "np", "int"][(l + len(sweep)) % 3]
                                 sweep.append(c)
+    # option forwarding, deterministic and FIRST (independent of the time budget and of the machine load): every family with an
+    # order p on a non-unit sub-box at levels where the degree-min(p, n-1) clause tells p from the default 3 (n >= 9), plus the
+    # modified basis and per-dimension flags of the trapezoidal family
+    forward = []
+    for fam, orders in (("BSpline", [1, 3, 5, 7]), ("Lagrange", [1, 3, 5])):
+        for p in orders:
+            for lvs, a_, b_, s_, e_ in (([3], ["-1"], ["3"], ["1/2"], ["3/2"]), ([4], ["-1"], ["3"], ["-1"], ["0"]),
+                                        ([3, 1], ["-1", "0"], ["3", "2"], ["1/2", "0"], ["3/2", "1/2"])):
+                forward.append({"family": fam, "dim": len(lvs), "a": a_, "b": b_, "start": s_, "end": e_, "lv": lvs,
+                                "boundary": True, "modified": False, "p": p})
+    forward.append({"family": "Trapezoidal", "dim": 2, "a": ["-1", "0"], "b": ["3", "2"], "start": ["-1", "1/2"], "end": ["0", "1"],
+                    "lv": [2, 3], "boundary": False, "modified": True})
+    forward.append({"family": "Trapezoidal", "dim": 2, "a": ["-1", "0"], "b": ["3", "2"], "start": ["-1", "1"], "end": ["0", "2"],
+                    "lv": [2, 2], "boundary": False, "modified": False, "route": "set_boundaries", "bflags": [False, True], "btype": "np"})
     k = 0
+    for c in forward:
+        safe_run_case(ctx, drv, c, rng, thorough)
+        account(ctx, c, k)
+        k += 1
+    ctx.extra["forwarding_block_cases"] = len(forward)
     for c in sweep:
         safe_run_case(ctx, drv, c, rng, thorough)
         account(ctx, c, k)
